@@ -147,3 +147,29 @@ func VerifC11_having_fields_uniq_grep() {
 }
 
 var _ = mlrval.FromInt
+
+// grep passes records through UNCHANGED also when they carry nested values
+func VerifC11_grep_leaves_nested_values_alone() {
+	inner := mlrval.NewMlrmap()
+	inner.PutReference("x", mlrval.FromInt(3))
+	rec := mlrval.NewMlrmapAsRecord()
+	rec.PutReference("a", mlrval.FromString("v"))
+	rec.PutReference("m", mlrval.FromMap(inner))
+	rec.PutReference("t", mlrval.FromArray([]*mlrval.Mlrval{mlrval.FromInt(1), mlrval.FromInt(2)}))
+	invert := verifBool("invert")
+	tr := verifVerb("grep", "nosuch")
+	if invert {
+		tr = verifVerb("grep", "-v", "nosuch")
+	} else {
+		tr = verifVerb("grep", "a=v")
+	}
+	out := verifPutRunAny(tr, rec)
+	verifAssert(len(out) == 1, "C11/grep-nested/record-passes")
+	if len(out) == 1 {
+		r := out[0]
+		verifAssert(r.FieldCount == 3 && r.Get("m") != nil && r.Get("m").IsMap() && r.Get("t") != nil && r.Get("t").IsArray(),
+			"C11/grep-nested/nested-values-still-nested")
+		verifAssert(r.Get("m.x") == nil && r.Get("t.1") == nil, "C11/grep-nested/no-flattened-names-appear")
+	}
+	verifReach("C11/grep-nested/end")
+}
